@@ -40,6 +40,9 @@ T = {
  "C06": ("history checkers (batch vs stream, repeat, fresh process, per-instance sub-histories under random interleavings) + shared-state snapshot monitor",
          "Runtime monitoring: for every recursive filter and architecture (16 streaming configurations incl. EKF with magnetometer and UKF, default and explicit parameters) a random history is run through the constructor and through update() sample by sample from the same initial attitude (equal to 1e-13), each repeated (bit-identical), some in a fresh interpreter with another hash seed; 2-4 instances of same/different classes are driven under random schedules and each instance's sub-history must be bit-identical to its isolated run; module globals, class attributes, function defaults and the global NumPy RNG are snapshotted around every case.",
          "NumPy; histories up to 60 samples; the only permitted shared-state write is RNG consumption by OLEQ/ROLEQ's random start", "5/C06"),
+ "C08": ("reference model (exponential map) + order-of-accuracy monitor + cross-filter dead-reckoning monitor + re-integration history check",
+         "Runtime monitoring: constant rates (1e-2..10 rad/s, dt 1e-3..5e-2, up to 300 steps) through AngularRate.update and the batch constructor vs q0*exp(w n dt/2); series orders 0-6 vs the Taylor-remainder bound and monotone improvement; one dead-reckoning step with a null accelerometer through Madgwick/Mahony/AQUA updateIMU+updateMARG, EKF.f, ROLEQ.attitude_propagation, AngularRate order 1 vs the normalised first-order step in each filter's convention; rate histories recovered by angular_velocities() and re-integrated.",
+         "NumPy; exponential map of vt/ref/quat.py; Taylor remainder with factor 4; recovered rates are first order (x^3/12 budget)", "5/C08"),
 }
 
 def main():
